@@ -24,7 +24,7 @@ META = {
     "technique": "Coq proof (loop invariant on the Bresenham error term; bounded-exhaustive vm_compute with reflection for contours) + model/implementation correspondence",
 }
 GROUP = "imageproc"
-REQ = "From RV Require Import Prelude.\nFrom ImageProc Require Import Draw DrawCases Contours.\nOpen Scope Z_scope."
+REQ = "From RV Require Import Prelude.\nFrom ImageProc Require Import Draw DrawCases Contours CaseCodec.\nOpen Scope Z_scope."
 REQ_D = REQ + "\nNotation case := dcase (only parsing)."
 REQ_C = REQ + "\nNotation case := ccase (only parsing)."
 THEOREMS = ["C36_bresham_in_bbox", "C36_bresham_endpoints", "C36_draw_line_in_image", "C36_fill_rect_writes",
@@ -64,7 +64,7 @@ def main(ctx):
     ctx.audit(GROUP)
     failed = ctx.prove(GROUP, "Props_C36", THEOREMS, timeout=3000)
     bindir = ctx.harness(GROUP, profile="release", bins=["c36"], hooks=False)
-    cases = ctx.gen_exec(bindir, "c36", ctx.n(400, 5000), inputs=ctx.replay_inputs())
+    cases = ctx.gen_exec(bindir, "c36", ctx.n(400, 3000), inputs=ctx.replay_inputs())
     draw = [c for c in cases if c["input"].startswith("D|")]
     cont = [c for c in cases if c["input"].startswith("C|")]
     # The alarm: the implementation's own outcome must satisfy the property oracle.
